@@ -41,7 +41,7 @@ instance (as : List Action) (P : State → Prop) [DecidablePred P] : Decidable (
 instance (s : State) : Decidable (Timely s) := by unfold Timely; infer_instance
 instance (s : State) : Decidable (Quiescent s) := by unfold Quiescent; infer_instance
 
-def pA : Params := { passive := true, failDur := 2, maxFails := 2, retries := 1, maxReq := 0, firstMax := 0, badStatus := [500], latency := false, aOn := false, aPasses := 1, aFails := 1, dynamic := false }
+def pA : Params := { passive := true, failDur := 2, maxFails := 2, retries := 1, maxReq := 0, firstMax := 0, badStatus := [500], latency := false, closeStreams := false, aOn := false, aPasses := 1, aFails := 1, dynamic := false }
 
 /-- one configuration, Host object 0 (key 7): request 0 failed there (counted at t=0, forgetter
     running), request 1 is being sent to it, request 2 got a bad status and stands between
